@@ -21,6 +21,10 @@ NA = {
 PENDING = {k: "simulation target (DESIGN 3) whose check is still being built in this session; not claimed until its check is registered" for k in ("C06", "C11", "C13", "C14", "C18", "C19")}
 
 CHECKS = {
+ "C06": dict(engine="threadsim", category="exploration", design="DESIGN.md section 3 (C06)",
+   technique="deterministic simulation: 2-3 real consumer threads over the real native LazySeq under a seeded baton scheduler, contended native-mutex acquisitions routed through a guarded hook; producer fault injection; reference pipeline + demand model",
+   text="Seeded schedule search over 2-3 real threads walking one shared lazy sequence (instrumented lazy-seq cells, a single-use Python iterator, or iterate f; under 0-2 stages of map/filter/concat) with scripts of first/rest/next/seq/count/nth/iteration; producers yield, sleep in virtual time, throw on their first call, touch themselves or a later cell. The native per-cell mutex stays the arbiter: a failed try_lock calls the guarded hook which parks the thread in the kernel. Oracles: producer active<=1 per cell, at most one successful return, re-run only after a throw; every value read equals the pure reference pipeline; a producer exception reaches the consumer that triggered it and later accesses re-raise or yield the right element, never a shortened sequence; a producer starts only if the output index demanded so far needs it; pipeline fns run once per element; deadlock = kernel DEADLOCK. Plus a declared non-simulated real-thread probe (6 variants) of the blocking native wait that the hook bypasses.",
+   note="Trusted: the reference pipeline/demand functions (60 lines), kernel spin semantics (a failed try-lock is retried after any real progress). The blocking slow path of the native mutex is NOT simulated; it is covered only by the real-thread probe, reported separately in the evidence. Needs hook commit c27de39 (guard BASILISP_VERIF_SIM)."),
  "C11": dict(engine="threadsim", category="exploration", design="DESIGN.md section 3 (C11)",
    technique="deterministic simulation: generated binding programs run on real threads and a real reused pool under a seeded baton scheduler, push faults injected, per-thread binding-stack reference model",
    text="Seeded search over generated programs (nested binding / with-bindings / runtime.bindings to depth 4, set!, try/throw, alter-var-root, future with creator work before deref, bound-fn on a fresh and on the same thread, pmap) executed by 1-3 real threads plus a real 1-3 worker pool with worker reuse; push faults (plain Var inside a multi-Var binding at every position, validator rejection) and body faults; the Var hash order that decides push order is a seeded permutation. Every probe's observed (*a* *b* *c*) is compared with a per-thread binding-stack model; catch clauses, probe counts and a final probe on every pool worker are checked. The forms under test are compiled by the real compiler (helpers once per lane; 6% of runs compile the whole program).",
@@ -82,6 +86,6 @@ def main():
         json.dump(m, f, indent=1)
     print("MANIFEST.json written:", len(checks), "checks,", len(na), "not applicable")
 
-HOOK_COMMITS = []
+HOOK_COMMITS = ["c27de39"]
 if __name__ == "__main__":
     main()
